@@ -2,16 +2,18 @@
 C20 — property theorems about the pool model (`Model.lean`, the model of the REPAIRED code: fixes 971bb1a, 5bc8097).
 
 Status (see props/C20.json):
-* full, for all inputs: the list-level and function-level theorems below (what `validateTx` admits, what the
-  strict `Filter` keeps, the demotion gap step, the virtual-nonce clamp, `enqueueTx` preserving the per-account
-  invariant, consequences of the invariant: disjointness, gap-free range);
-* `_partial`: invariant preservation is proved for the admission path into the queue only;
-* statement only: `pool_invariant_statement` (preservation by every operation) — checked by correspondence + oracle.
+* `pool_invariant` / `pool_invariant_reachable`: EVERY well-formed operation preserves the whole invariant `Inv`
+  (per-account shape + virtual nonce, uint64 bound on state nonces, `all` = pending ∪ queued without duplicates,
+  priced ⊇ all), a fresh pool satisfies it, hence every reachable state does (induction over operation lists);
+* `caps_after_reorg`: the limits in the form the code enforces them after add / reset / promote;
+* the flat queue limits are NOT claimed: `flat_account_queue_limit_refuted` (known finding F-C20a);
+* the list-level and function-level theorems of the earlier rounds and the refutations of the pre-fix code.
 -/
 import YouVerif.C20.Proofs
 import YouVerif.C20.ProofsWState
 import YouVerif.C20.ProofsS
 import YouVerif.C20.ProofsP4
+import YouVerif.C20.ProofsC
 namespace YouVerif.C20.Props
 open YouVerif.C20
 
@@ -30,41 +32,13 @@ structure Inv (s : State) : Prop where
   /-- every pooled transaction has a (live) entry in the priced heap -/
   pricedCovers : ∀ t ∈ s.all, t ∈ s.priced
 
-/-- FULL STATEMENT: every well-formed operation (`Op.WF`: the state nonces a reset installs fit a uint64) preserves the
-invariant.  PROVED parts: all per-account clauses and the nonce bound (`accounts_invariant`); the structural clauses
-(`structure_invariant`).  Still open here: the global `all` / `priced` clauses. -/
-def pool_invariant_statement : Prop := ∀ (s : State) (op : Op), op.WF → Inv s → Inv (step s op).1
-
-/-- the limits in the form the code enforces them, after an operation that ends with a reorg run -/
+/-- the limits in the form the code enforces them, after an operation that ends with a reorg run: the global pending
+limit holds or every non-local account is within `AccountSlots`; the global queue limit holds or every non-local
+queue is empty.  (The FLAT per-account / global queue limits are false of the code between reorg runs: known finding
+F-C20a, `flat_account_queue_limit_refuted` below.) -/
 def CapsAfterReorg (s : State) : Prop :=
   (s.pendingCount ≤ s.cfg.globalSlots ∨ ∀ a, (s.acct a).isLocal = false → (s.acct a).pending.txs.length ≤ s.cfg.accountSlots) ∧
   (s.queuedCount ≤ s.cfg.globalQueue ∨ ∀ a, (s.acct a).isLocal = false → (s.acct a).queue.txs = [])
-
-/-- FULL STATEMENT (not proved; checked by the oracle): limits after add/reset/promote. The flat per-account
-queue limit is false of the code (known finding F-C20a). -/
-def caps_after_reorg_statement : Prop :=
-  ∀ (s : State) (op : Op), Inv s → (match op with | .add .. | .reset .. | .promote .. => True | _ => False) →
-    CapsAfterReorg (step s op).1
-
-theorem allI_init (cfg : Config) (pl gl : Nat) (accts : List (Nat × Nat)) : AllI (init cfg pl gl accts) := by
-  have hac : ∀ a, (((init cfg pl gl accts).acct a).pending.txs = [] ∧ ((init cfg pl gl accts).acct a).queue.txs = [] ∧
-      ((init cfg pl gl accts).acct a).pn = none ∧ ((init cfg pl gl accts).acct a).beat = 0) := by
-    intro a
-    simp only [State.acct, init, List.getD_eq_getElem?_getD, List.getElem?_map]
-    cases accts[a]? <;> simp
-  refine ⟨fun a => ?_, fun b => ?_⟩
-  · obtain ⟨h1, h2, _, h4⟩ := hac a
-    constructor <;> simp [h1, h2, h4, Sorted] <;> exact .nil _
-  · obtain ⟨h1, _, h3, _⟩ := hac b
-    simp [PN, Account.pnGet, h1, h3]
-
-theorem nb_init (cfg : Config) (pl gl : Nat) (accts : List (Nat × Nat)) (hacc : ∀ p ∈ accts, p.1 ≤ 2 ^ 64 - 1) :
-    NB (init cfg pl gl accts) := by
-  intro b
-  simp only [State.acct, init, List.getD_eq_getElem?_getD, List.getElem?_map]
-  cases hb : accts[b]? with
-  | none => simp
-  | some p => simpa using hacc p (List.mem_of_getElem? hb)
 
 /-- A freshly created pool (over a chain state whose nonces fit a uint64) satisfies the invariant. -/
 theorem init_invariant (cfg : Config) (pl gl : Nat) (accts : List (Nat × Nat)) (hacc : ∀ p ∈ accts, p.1 ≤ 2 ^ 64 - 1) :
@@ -77,16 +51,6 @@ theorem init_invariant (cfg : Config) (pl gl : Nat) (accts : List (Nat × Nat)) 
     cases accts[t.sender]? <;> simp
   rw [hac.1, hac.2]
   simp [init]
-
-/-- induction over operation sequences with a side condition on every operation -/
-theorem run_induction (P : State → Prop) (hstep : ∀ s op, op.WF → P s → P (step s op).1) (ops : List Op)
-    (hops : ∀ op ∈ ops, op.WF) (s : State) (h : P s) : P (run s ops) := by
-  unfold run
-  induction ops generalizing s with
-  | nil => exact h
-  | cons op rest ih =>
-    simp only [List.foldl_cons]
-    exact ih (fun o ho => hops o (by simp [ho])) _ (hstep s op (hops op (by simp)) h)
 
 /-! ## the per-account clauses (shape, affordability, virtual nonce), for every operation and every reachable state -/
 
@@ -129,6 +93,71 @@ theorem reachable_account_shape (cfg : Config) (pl gl : Nat) (accts : List (Nat 
 computed before the reset, cover every account afterwards). -/
 theorem table_length_invariant (s : State) (op : Op) (h : AllW s) : (step s op).1.n = s.n := step_n h op
 
+/-! ## the whole invariant -/
+
+/-- THE PROPERTY'S INVARIANT, all operations: every well-formed operation preserves `Inv` — for every account pending is
+gap-free from the state nonce, payable, within the block gas limit, queued transactions lie strictly above, the virtual
+nonce is state nonce + number of pending; `all` has no duplicates and is exactly the union of pending and queued (so,
+with `never_pending_and_queued`, every pooled transaction is in exactly one of the two); every pooled transaction has
+a live entry in the priced heap. -/
+theorem pool_invariant (s : State) (op : Op) (hwf : op.WF) (h : Inv s) : Inv (step s op).1 := by
+  have ha := accounts_invariant s op hwf h.accounts h.nonceBound
+  have hg := GI.step h.accounts.1.allW ⟨h.allNodup, h.allUnion, h.pricedCovers⟩ op
+  exact ⟨ha.1, ha.2, hg.allNodup, hg.allUnion, hg.pricedCovers⟩
+
+/-- ... hence `Inv` holds in every state reachable from a fresh pool by any sequence of well-formed operations. -/
+theorem pool_invariant_reachable (cfg : Config) (pl gl : Nat) (accts : List (Nat × Nat)) (ops : List Op)
+    (hacc : ∀ p ∈ accts, p.1 ≤ 2 ^ 64 - 1) (hops : ∀ op ∈ ops, op.WF) : Inv (run (init cfg pl gl accts) ops) :=
+  run_induction Inv (fun s op hwf h => pool_invariant s op hwf h) ops hops _ (init_invariant cfg pl gl accts hacc)
+
+/-- the global index clauses alone need only the structural invariant (no well-formedness side condition) -/
+theorem index_invariant (s : State) (op : Op) (hw : AllW s) (hg : GI s) : GI (step s op).1 := GI.step hw hg op
+
+/-! ## limits -/
+
+/-- LIMITS, in the form the code enforces them: after every operation that ends with a reorg run (add, reset,
+promote) the global pending limit holds or every non-local account is within `AccountSlots`, and the global queue
+limit holds or every non-local queue is empty.  Needs only the structural invariant and the index clauses. -/
+theorem caps_after_reorg (s : State) (op : Op) (h : Inv s)
+    (hop : match op with | .add .. | .reset .. | .promote .. => True | _ => False) : CapsAfterReorg (step s op).1 := by
+  have := caps_step h.accounts.1.allW ⟨h.allNodup, h.allUnion, h.pricedCovers⟩ op hop
+  exact ⟨this.1, this.2⟩
+
+def cxCfg : Config := { accountSlots := 4, globalSlots := 16, accountQueue := 1, globalQueue := 16, priceBump := 10 }
+def cxTx (n : Nat) : Tx := { id := n, sender := 0, nonce := n, price := 1, gas := 1, value := 0, intr := 0, flags := 0 }
+
+/-- KNOWN FINDING F-C20a stays an explicit exclusion: the FLAT per-account queue limit is false of the code.  Three
+remote transactions 0,1,2 of one account are promoted; removing nonce 0 hands 1 and 2 back to the queue, which then
+holds 2 > AccountQueue = 1 transactions of a non-local account (until that account's next promotion run).  The witness
+is a reachable state of well-formed operations, so the limit clause cannot be part of `Inv`. -/
+theorem flat_account_queue_limit_refuted :
+    ∃ (cfg : Config) (pl gl : Nat) (accts : List (Nat × Nat)) (ops : List Op) (a : Nat),
+      (∀ p ∈ accts, p.1 ≤ 2 ^ 64 - 1) ∧ (∀ op ∈ ops, op.WF) ∧
+      ((run (init cfg pl gl accts) ops).acct a).isLocal = false ∧
+      ((run (init cfg pl gl accts) ops).acct a).queue.txs.length > (run (init cfg pl gl accts) ops).cfg.accountQueue := by
+  refine ⟨cxCfg, 1, 100000, [(0, 1000)], [.add false [] [cxTx 0, cxTx 1, cxTx 2], .remove (cxTx 0) false], 0, ?_, ?_, ?_⟩
+  · intro p hp; simp at hp; subst hp; simp
+  · intro op hop
+    simp at hop
+    rcases hop with rfl | rfl <;> simp [Op.WF]
+  · decide
+
+def nbTx (n c : Nat) : Tx := { id := n, sender := 0, nonce := n, price := 1, gas := 1, value := c, intr := 0, flags := 0 }
+
+/-- The uint64 side condition (`hacc`, `Op.WF`) is not gratuitous — it is where the model (unbounded `Nat`) and the
+code (`uint64`) part: with a state nonce of 2^64 the strict `Filter`'s minimum search (which starts at `MaxUint64`)
+hands the payable transaction AT the state nonce back to the queue after it was promoted in the same run, and the
+virtual nonce stays one too high.  Unreachable in Go, where nonces are `uint64`. -/
+theorem uint64_nonce_bound_needed :
+    ∃ (cfg : Config) (pl gl : Nat) (accts : List (Nat × Nat)) (ops : List Op), ¬ AllI (run (init cfg pl gl accts) ops) := by
+  refine ⟨cxCfg, 1, 100000, [(2 ^ 64 + 1, 100)],
+    [.add false [] [nbTx (2 ^ 64 + 1) 50], .reset [] .normal 100000 [(0, 2 ^ 64, 10)] [nbTx (2 ^ 64) 1] []], fun h => ?_⟩
+  exact absurd (h.2 0) (by unfold PN; decide)
+
+/-- non-vacuity: the hypotheses of `caps_after_reorg` / `pool_invariant` hold for a fresh pool and an add operation -/
+example : Inv (init cxCfg 1 100000 [(0, 1000)]) ∧ (Op.add false [] [cxTx 0, cxTx 1, cxTx 2]).WF :=
+  ⟨init_invariant _ _ _ _ (by intro p hp; simp at hp; subst hp; simp), by simp [Op.WF]⟩
+
 /-- non-vacuity of `Op.WF`: a reset that installs nonce 5 for account 0 is well-formed -/
 example : (Op.reset [] .normal 100000 [(0, 5, 1000)] [] []).WF := by simp [Op.WF]
 
@@ -159,6 +188,14 @@ theorem never_pending_and_queued (s : State) (h : AllW s) (a b : Nat) (t : Tx)
 /-- a transaction sits at most once in a list (strictly increasing nonces) -/
 theorem lists_have_unique_nonces (s : State) (h : AllW s) (a : Nat) :
     Sorted (s.acct a).pending.txs ∧ Sorted (s.acct a).queue.txs := ⟨(h a).pSorted, (h a).qSorted⟩
+
+/-- every pooled transaction is in EXACTLY one of pending / queued of its sender, in every state satisfying `Inv` -/
+theorem pooled_exactly_once (s : State) (h : Inv s) (t : Tx) (ht : t ∈ s.all) :
+    (t ∈ (s.acct t.sender).pending.txs ∧ t ∉ (s.acct t.sender).queue.txs) ∨
+    (t ∉ (s.acct t.sender).pending.txs ∧ t ∈ (s.acct t.sender).queue.txs) := by
+  rcases (h.allUnion t).mp ht with hp | hq
+  · exact .inl ⟨hp, never_pending_and_queued s h.accounts.1.allW _ _ t hp⟩
+  · exact .inr ⟨fun hp => never_pending_and_queued s h.accounts.1.allW _ _ t hp hq, hq⟩
 
 /-! ## what every reset re-establishes (the path repaired by 971bb1a) -/
 
@@ -209,17 +246,6 @@ theorem admitted_lies_above_pending (s : State) (t : Tx) (l : Bool) (hI : AllJ s
     (hno : getN (s.acct t.sender).pending.txs t.nonce = none) :
     (s.acct t.sender).nonce + (s.acct t.sender).pending.txs.length ≤ t.nonce :=
   chain_free_slot (hI t.sender).pChain (validate_ok_affordable s t l h).2.2.1 (getN_none hno)
-
-/-- PARTIAL (one path of `add`): queueing an admitted, non-overlapping transaction preserves the per-account
-invariant of every account and touches nothing but that account's queue. -/
-theorem add_queue_path_preserves_partial (s : State) (t : Tx) (l : Bool) (hI : AllI s) (h : s.validateTx t l = none)
-    (hno : getN (s.acct t.sender).pending.txs t.nonce = none) : AllI (s.enqueueTx t).1 := by
-  have := enqueueTx_spec hI.1 t (admitted_lies_above_pending s t l hI.1 h hno)
-  refine ⟨this.1, fun b => ?_⟩
-  have hb := hI.2 b
-  unfold PN Account.pnGet at *
-  have e := this.2.2.2.2 b
-  rw [e.1, e.2.1, e.2.2.1]; exact hb
 
 /-- `enqueueTx` under its guard preserves the per-account invariant (any caller: add, demotion). -/
 theorem enqueue_preserves (s : State) (t : Tx) (hI : AllJ s)
